@@ -1,6 +1,211 @@
-//! Hooked into `crates/order_book/src/market.rs`.
+//! Hooked into `crates/order_book/src/market.rs` (child module: sees `Market`'s private field).
+//!
+//! C14: a `Market<2, L>` built from two independent symbolic books; one market-level operation on
+//! one asset vs. two shadow images (the addressed one takes the same operation through the
+//! reference engine, the other must stay untouched); all-asset queries in asset order.
 #![allow(dead_code)]
-#[cfg(not(kani))]
-pub fn lookup(_name: &str) -> Option<fn()> {
-    None
+#![allow(clippy::all)]
+use super::*;
+use crate::orderbook::verif_proofs::*;
+#[allow(unused_imports)]
+use crate::verif::src::*;
+use crate::types::Status;
+use crate::{vcheck, vcover, vharnesses};
+
+impl<const A: usize, const L: usize> Market<A, L> {
+    /// assemble a market from given books (harness constructor)
+    pub fn verif_from_books(order_books: [OrderBook<L>; A]) -> Self {
+        Self { order_books }
+    }
+    pub fn verif_book(&self, i: usize) -> &OrderBook<L> {
+        &self.order_books[i]
+    }
+}
+
+/// every all-asset query returns each asset's own value, in asset order
+pub fn queries_in_asset_order<const L: usize>(m: &Market<2, L>) -> bool {
+    let b0 = m.verif_book(0);
+    let b1 = m.verif_book(1);
+    let mut ok = m.bid_vols() == [b0.bid_vol(), b1.bid_vol()] && m.ask_vols() == [b0.ask_vol(), b1.ask_vol()];
+    ok &= m.bid_best_vols() == [b0.bid_best_vol(), b1.bid_best_vol()] && m.ask_best_vols() == [b0.ask_best_vol(), b1.ask_best_vol()];
+    ok &= m.bid_best_vol_and_orders() == [b0.bid_best_vol_and_orders(), b1.bid_best_vol_and_orders()];
+    ok &= m.ask_best_vol_and_orders() == [b0.ask_best_vol_and_orders(), b1.ask_best_vol_and_orders()];
+    ok &= m.bid_asks() == [b0.bid_ask(), b1.bid_ask()];
+    ok &= m.get_trade_vols() == [b0.get_trade_vol(), b1.get_trade_vol()];
+    let (bl, al) = (m.bid_levels(), m.ask_levels());
+    let (l0b, l1b, l0a, l1a) = (b0.bid_levels(), b1.bid_levels(), b0.ask_levels(), b1.ask_levels());
+    let l2 = m.level_2_data();
+    let (d0, d1) = (b0.level_2_data(), b1.level_2_data());
+    ok &= l2[0].bid_price == d0.bid_price && l2[0].ask_price == d0.ask_price && l2[0].bid_vol == d0.bid_vol && l2[0].ask_vol == d0.ask_vol;
+    ok &= l2[1].bid_price == d1.bid_price && l2[1].ask_price == d1.ask_price && l2[1].bid_vol == d1.bid_vol && l2[1].ask_vol == d1.ask_vol;
+    let mut l = 0;
+    while l < L {
+        ok &= bl[0][l] == l0b[l] && bl[1][l] == l1b[l] && al[0][l] == l0a[l] && al[1][l] == l1a[l];
+        ok &= l2[0].bid_price_levels[l] == l0b[l] && l2[1].bid_price_levels[l] == l1b[l];
+        ok &= l2[0].ask_price_levels[l] == l0a[l] && l2[1].ask_price_levels[l] == l1a[l];
+        l += 1;
+    }
+    ok
+}
+
+/// one market-level operation addressed to asset `a` (concrete per harness), trading flag per cfg
+pub fn step_market_op<const N: usize, const L: usize>(m: usize, a: usize, cfg: GenCfg) {
+    let p0: Plain<N> = gen_plain::<N>(m, cfg);
+    let mut p1: Plain<N> = gen_plain::<N>(m, cfg);
+    // one clock and one trading flag are shared by construction (Market::new / set_time / toggles)
+    p1.t = p0.t;
+    p1.trading = p0.trading;
+    let (b0, old0) = build_with_log::<N, L>(&p0, cfg.ntrades);
+    let (b1, old1) = build_with_log::<N, L>(&p1, cfg.ntrades);
+    let mut market: Market<2, L> = Market::verif_from_books([b0, b1]);
+    let pa = if a == 0 { p0 } else { p1 };
+    let po = if a == 0 { p1 } else { p0 };
+    let (olda, oldo) = if a == 0 { (old0, old1) } else { (old1, old0) };
+    let mut r = pa;
+    let which = any_u8();
+    assume(which < 8);
+    let id = any_usize();
+    assume(id < m);
+    let bid = any_bool();
+    let vol = any_u32();
+    let trader = any_u32();
+    let price = if any_bool() { Some(g_price(true, pa.tick)) } else { None };
+    let nv = any_u32();
+    let mut expect_len = m;
+    match which {
+        0 => {
+            assume(vol >= 1);
+            let got = market.create_order(a, mk_side(bid), vol, trader, price);
+            let exp = ref_create(&mut r, bid, vol, trader, price);
+            vcheck!(match (got, exp) { (Ok(g), Some(e)) => g == (a, e), _ => false }, "MARKET.create_returns_asset_and_per_asset_sequence_number");
+            expect_len = m + 1;
+        }
+        1 => {
+            assume_valid_incoming(&pa, bid, vol, price, cfg.discipline);
+            let got = market.create_and_place_order(a, mk_side(bid), vol, trader, price);
+            let exp = ref_create(&mut r, bid, vol, trader, price);
+            ref_place(&mut r, m);
+            vcheck!(match (got, exp) { (Ok(g), Some(e)) => g == (a, e), _ => false }, "MARKET.create_returns_asset_and_per_asset_sequence_number");
+            expect_len = m + 1;
+        }
+        2 | 5 => {
+            let o = *entry_order(&pa.e[id]);
+            if o.status == Status::New {
+                let px = if is_market(&o) { None } else { Some(o.price) };
+                assume_valid_incoming(&pa, is_bid(o.side), o.vol, px, cfg.discipline);
+            }
+            if which == 2 {
+                market.place_order((a, id));
+            } else {
+                market.process_event(Event::New { order_id: (a, id) });
+            }
+            ref_place(&mut r, id);
+        }
+        3 | 6 => {
+            if which == 3 {
+                market.cancel_order((a, id));
+            } else {
+                market.process_event(Event::Cancellation { order_id: (a, id) });
+            }
+            ref_cancel(&mut r, id);
+        }
+        _ => {
+            // pure reductions and same-price re-queues (keeps the per-side volume bound trivially)
+            assume(nv >= 1 && nv <= entry_order(&pa.e[id]).vol);
+            if cfg.discipline {
+                assume(entry_key_time(&pa.e[id]) != pa.t);
+                let mut j = 0;
+                while j < N {
+                    if j < pa.n && j != id && active(&pa.e[j]) {
+                        assume(entry_key_time(&pa.e[j]) != pa.t);
+                    }
+                    j += 1;
+                }
+            }
+            if which == 4 {
+                market.modify_order((a, id), None, Some(nv));
+            } else {
+                market.process_event(Event::Modify { order_id: (a, id), new_price: None, new_vol: Some(nv) });
+            }
+            ref_modify(&mut r, id, None, Some(nv));
+        }
+    }
+    let ba = market.verif_book(a);
+    let bo = market.verif_book(1 - a);
+    vcheck!(ba.verif_n_orders() == expect_len, "MARKET.addressed_book_order_count");
+    vcheck!(table_matches(ba, &r), "MARKET.addressed_book_equals_stand_alone_book");
+    vcheck!(new_trades_match(ba, &r, cfg.ntrades) && old_trades_unchanged(ba, cfg.ntrades, &olda), "MARKET.addressed_book_trades_equal_stand_alone_book");
+    vcheck!(index_equals_reload::<N, L>(ba), "INDEX.side_indexes_equal_rebuild_from_orders");
+    vcheck!(snapshot_equal::<N, L>(bo, &po, cfg.ntrades, &oldo, false), "MARKET.other_asset_untouched");
+    vcheck!(index_equals_reload::<N, L>(bo), "INDEX.other_asset_side_indexes_untouched");
+    vcheck!(queries_in_asset_order(&market), "MARKET.all_asset_queries_in_asset_order");
+    vcheck!(market.get_time() == p0.t, "MARKET.shared_clock");
+    vcover!(which == 1 && active(&r.e[m]), "cover.placed_on_addressed_asset");
+    vcover!(which == 6 && active(&pa.e[id]), "cover.cancel_event_routed");
+    core::mem::forget(market);
+}
+
+/// set_time / toggles / reset reach every asset and change nothing else; `Market::new` gives each
+/// asset its own tick size and the shared clock / flag
+pub fn step_market_admin<const N: usize, const L: usize>(m: usize, cfg: GenCfg) {
+    let p0: Plain<N> = gen_plain::<N>(m, cfg);
+    let mut p1: Plain<N> = gen_plain::<N>(m, cfg);
+    p1.t = p0.t;
+    p1.trading = p0.trading;
+    let (b0, old0) = build_with_log::<N, L>(&p0, cfg.ntrades);
+    let (b1, old1) = build_with_log::<N, L>(&p1, cfg.ntrades);
+    let mut market: Market<2, L> = Market::verif_from_books([b0, b1]);
+    let which = any_u8();
+    assume(which < 4);
+    let (mut e0, mut e1) = (p0, p1);
+    match which {
+        0 => {
+            let t2 = any_u64();
+            assume(t2 >= p0.t);
+            market.set_time(t2);
+            e0.t = t2;
+            e1.t = t2;
+            vcheck!(market.get_time() == t2, "MARKET.set_time_sets_shared_clock");
+        }
+        1 => {
+            market.enable_trading();
+            e0.trading = true;
+            e1.trading = true;
+        }
+        2 => {
+            market.disable_trading();
+            e0.trading = false;
+            e1.trading = false;
+        }
+        _ => {
+            market.reset_trade_vols();
+            e0.trade_vol = 0;
+            e1.trade_vol = 0;
+        }
+    }
+    vcheck!(snapshot_equal::<N, L>(market.verif_book(0), &e0, cfg.ntrades, &old0, false), "MARKET.admin_reaches_asset_0_and_changes_nothing_else");
+    vcheck!(snapshot_equal::<N, L>(market.verif_book(1), &e1, cfg.ntrades, &old1, false), "MARKET.admin_reaches_asset_1_and_changes_nothing_else");
+    vcheck!(queries_in_asset_order(&market), "MARKET.all_asset_queries_in_asset_order");
+    vcover!(which == 3 && p1.trade_vol > 0, "cover.reset_reaches_asset_1");
+    core::mem::forget(market);
+    // construction: per-asset tick sizes, shared clock and flag, empty books
+    let t = any_u64();
+    let t0 = any_u32();
+    let t1 = any_u32();
+    assume(t0 >= 1 && t1 >= 1);
+    let tr = any_bool();
+    let fresh: Market<2, L> = Market::new(t, [t0, t1], tr);
+    vcheck!(fresh.verif_book(0).verif_tick() == t0 && fresh.verif_book(1).verif_tick() == t1, "MARKET.new_gives_each_asset_its_own_tick_size");
+    vcheck!(fresh.verif_book(0).get_time() == t && fresh.verif_book(1).get_time() == t && fresh.get_time() == t, "MARKET.new_shared_clock");
+    vcheck!(fresh.verif_book(0).verif_trading() == tr && fresh.verif_book(1).verif_trading() == tr, "MARKET.new_shared_flag");
+    vcheck!(fresh.bid_asks() == [(0, Price::MAX), (0, Price::MAX)] && fresh.verif_book(0).verif_n_orders() == 0, "MARKET.new_books_empty");
+}
+
+vharnesses! {
+    #[cfg_attr(kani, kani::unwind(4))]
+    fn c14_market_op_asset0_off() { step_market_op::<3, 2>(2, 0, GenCfg { ntrades: 1, ..OFF }) }
+    #[cfg_attr(kani, kani::unwind(4))]
+    fn c14_market_op_asset1_off() { step_market_op::<3, 2>(2, 1, GenCfg { ntrades: 1, ..OFF }) }
+    #[cfg_attr(kani, kani::unwind(4))]
+    fn c14_market_admin() { step_market_admin::<3, 2>(2, GenCfg { ntrades: 1, ..CFG }) }
 }
